@@ -72,6 +72,10 @@ def gen_set(name, n, rng):
         al = ["asm", "end", ";", "mov", "ax", ",", "bx", "@lbl:", "\n", "\n", "\r\n", "//c\n", "{c}", "'s'", "begin", "procedure", "P", "[", "]", "(", ")", "{$IFDEF A}", "{$ENDIF}", "{$ELSE}", "end;", "end.", "db", "$FF", "// pasfmt off\n", "{pasfmt on}"]
         return [(" ".join(rng.choice(al) for _ in range(rng.randrange(1, 25))).replace(" \n ", "\n"), gen.random_cfg(rng)) for _ in range(n)]
     if name == "crlf": return [(gen.to_crlf(rng.choice(texts)), gen.random_cfg(rng)) for _ in range(n)]
+    if name.startswith("g_"):
+        # the sets of tools/grammar_diff.py (special quirks quirks2 portab pairs triples ctxsoup dirheavy gdir gmut nest seedsdir mutdir ...)
+        import grammar_diff
+        return [(t, gen.random_cfg(rng) if rng.random() < 0.5 else DEFAULT) for t in grammar_diff.gen_set(name[2:], n, rng)]
     raise SystemExit("unknown set " + name)
 
 
